@@ -50,7 +50,7 @@ reg('C11', 'exploration',
     'All finalisation histories of length 1..4 (quick) / 1..5 (thorough; plus every length-6 history of the first two) over {close(), '
     'context-manager exit, exit through an Exception, exit through a BaseException}, each realised with nested with-blocks and with '
     'one with-block per exit entered in turn, x {VbsWriter, '
-    'IpmWriter} x {VBS, 1014} x {BytesIO, real file} x 7 record sets are enumerated. The file after the whole history must '
+    'IpmWriter} x {VBS, 1014} x {BytesIO, real file} x 7 record sets are enumerated; histories of length 2-3 are also played with 150 / 400 other writers created and finalised after the first finalisation. The file after the whole history must '
     'equal the file after the first finalisation and read back, by the real and by the reference reader, as the records '
     'written. Exhaustive up to the history bound; held on the executions produced.',
     'Trusts vmon/ref/blocking.py. Whether a repeated finalisation is ignored or refused is not judged; only the file is.')
@@ -112,7 +112,7 @@ reg('C16', 'exploration',
     'seeded Latin-1 ones. Decode: the processor is placed on each variable-length (and each wide fixed-width) text element of the packaged configuration in '
     'turn (and on generated configurations), latin_1 / cp500 / cp037, through loads, IpmReader and blocked IpmReader; the '
     'element must come back masked / as its nine-character prefix and the clear number (whole, without check digit, middle '
-    'digits; as text, bytes or hex) must occur in no value of the returned dict; card numbers with separators, letters, line ends and other control characters (20 special characters x 8 positions x every length for mask()), and masking switched on in a configuration object that was already used for a decode, and the masked element declared as a number, are part of every run. Held on the executions produced.',
+    'digits; as text, bytes or hex) must occur in no value of the returned dict; card numbers with separators, letters, line ends and other control characters (20 special characters x 8 positions x every length for mask()), and masking switched on in a configuration object that was already used for a decode, and the masked element declared as a number, masking switched on by replacing the element entry with a new dict, and entries that spell out the documented optional key field_processor_config (empty), are part of every run. Held on the executions produced.',
     'Trusts vmon/ref/codec.py encoder and vmon/ref/blocking.py to build the inputs. Other elements are letters-only so a hit is a leak.')
 
 reg('C17', 'exploration',
@@ -142,15 +142,15 @@ reg('C08', 'fault_enumeration',
     'ascii; both bitmaps): every length-prefix digit replaced by sign/space/underscore/letter/every digit/non-ASCII digits, '
     'every prefix rewritten (negative spellings, 0, one short, one over, message length, maximum), hex bitmaps respelled (0x, signs, blanks, underscores, whole hex pairs blanked), utf-8 among the codecs, 25 fresh valid messages per base, each of the 128 bitmap bits '
     'flipped (and bit 1 cleared together with each bit above 64, with and without the upper elements\' bytes), every variable element emptied (must still be accepted), trims/extensions, multi-point mutation; plus thousands of '
-    'constructed messages that a negative-length-tolerant decoder would tile exactly (negative prefixes spelled with and without white space around the sign). strict accepts => must accept with that '
+    'constructed messages that a negative-length-tolerant decoder would tile exactly (negative prefixes spelled with and without white space around the sign); configuration lifecycle cases (an element entry edited in place or replaced by a new dict between two decodes of the same bitmap under one configuration object; a fresh configuration object per call, thrown away afterwards). strict accepts => must accept with that '
     'dict; lenient rejects => must reject; in between, accepted readings must equal the lenient element values.',
     'Trusts vmon/ref/codec.py strict/lenient decoders. A non-library exception counts as a rejection here (reported by C07).')
 
 reg('C10', 'fault_enumeration',
     'runtime monitor: real IpmReader and the extraction tool run on files whose k-th record carries an injected fault; records delivered, exception attributes and the operator line observed for every k',
-    'n = 1..10 (quick) / 1..12, 17, 25, 40 (thorough) records x every position k x eight ways of walking the reader x twelve fault kinds (an element deleted from a configuration object that has already read the file, a record ending inside its own header, a bad decimal value under a caller-supplied configuration, truncated record, oversized '
+    'n = 1..10 (quick) / 1..12, 17, 25, 40 (thorough) records x every position k x eight ways of walking the reader x fourteen fault kinds (an unconfigured bit above every element present, a flagged element where the record ends exactly on a field boundary, an element deleted from a configuration object that has already read the file, a record ending inside its own header, a bad decimal value under a caller-supplied configuration, truncated record, oversized '
     'length, undecodable MTI (a quarter of the lists with records over 2 KB; truncation points: anywhere, straight after the length prefix, on a fill byte of a block, after two fill-valued data bytes; the context of a truncated record must be all its surviving bytes), unknown bitmap bit, bad field length, bad typed value, bad PDS content, bad ICC content, trailing '
-    'bytes) x {VBS, 1014} x {latin_1, cp500}: exactly k-1 records equal to the strict reference decode, MciIpmDataError with '
+    'bytes) x {VBS, 1014} x {latin_1, cp500, ascii (whose MTI fault is undecodable bytes)}: exactly k-1 records equal to the strict reference decode, MciIpmDataError with '
     'record_number == k and binary_context_data == prefix + raw bytes of record k, and "Error detected in record k" printed by '
     'mci_ipm_to_csv run in-process on the same file.',
     'Trusts vmon/ref/codec.py and vmon/ref/blocking.py to build files and expected dicts.')
@@ -171,11 +171,11 @@ reg('C18', 'exploration',
     'table ids that differ only in their last characters), random index assignments (also two sub-ids for one table), 0..40 '
     'rows per table interleaved, half of the generated layouts listing their columns out of positional order (some rows trimmed part-way through a column, some behind 3 000 rows of another table), unindexed / unconfigured noise rows and per-table trailers, x {compressed, expanded} x {latin_1, '
     'cp500} x {VBS, 1014}, every table of every file requested through the class, the CSV function or the CSV command (its own argument parser, real files, a configuration file); compressed and expanded must '
-    'agree on every column; missing index trailer / unconfigured table must raise MciIpmDataError.',
+    'agree on every column; missing index trailer / unconfigured table / a table whose layout is empty or null must raise MciIpmDataError (class and command); packaged tables are also requested without handing over a layout (class without param_config, function with its default, command with a configuration file that has no parameter tables).',
     'Trusts vmon/ref/param.py (validated against the literal rows in the repository tests), vmon/ref/blocking.py and the csv module.')
 
 reg('C19', 'exploration',
-    'runtime monitor: the four conversion tools run (function, cli_run and argument-parser entry points, real files) on writer-produced inputs; converted records read by the real reader and by the reference decoder, then converted back and compared byte for byte',
+    'runtime monitor: the four conversion tools run (function, cli_run and argument-parser entry points - the latter with and without -o -, real files) on writer-produced inputs; converted records read by the real reader and by the reference decoder, then converted back and compared byte for byte',
     'All 6 ordered pairs of {latin_1, cp500, cp037} x {vbs,1014}^2 (plus layout-only conversions with the same encoding on both sides) for mci_ipm_encode and mci_ipm_param_encode, both fixed '
     'directions x {blocked, unblocked} for mideu convert and paramconv, 12 (quick) / 150 (thorough) repetitions with fresh '
     'message lists (PDS entries, raw carriers, binary DE55, typed elements, all element subsets) and arbitrary-byte parameter '
